@@ -64,6 +64,26 @@ def chainRng {γ : Type} (mk : Int → List Nat → γ) (seed nChains chainIndex
   | .error e => .error e
   | .ok s => .ok (mk s.entropy s.spawnKey)
 
+/-! ### which generator the model steps with -/
+
+/-- `model.reset_model(); model.set_rng(rng)`: whatever generator the model held before (`held`, `none` = no generator), after
+    the unconditional `set_rng` it steps with the one `sample` derived from (seed, n_chains, chain_index) -/
+def rngInEffect {γ : Type} (_held : Option γ) (handed : γ) : γ := handed
+
+/-- REGRESSION DEFINITION (seeded change S7-C17, not the code in /repo): `if model.rng is None: model.set_rng(rng)` --
+    a generator the model already holds is kept -/
+def rngInEffectKeep {γ : Type} (held : Option γ) (handed : γ) : γ := held.getD handed
+
+/-- REGRESSION DEFINITION (S7-C17): the event trace of that variant (2 reset, 3 set_rng, 0 step, 1 record) -/
+def traceKeepRng (hasRng : Bool) (n b t : Nat) : List Int :=
+  [2] ++ (if hasRng then [] else [3]) ++ List.replicate b (0 : Int)
+    ++ (List.replicate n (List.replicate t (0 : Int) ++ [1])).flatten
+
+/-- REGRESSION DEFINITION (seeded change S5-C17, not the code in /repo): `if not seed: seed = None` at the top of `sample` --
+    seed 0 is falsy, `SeedSequence(None)` draws fresh entropy `osEntropy` from the operating system -/
+def chainSeedFalsy (osEntropy seed nChains chainIndex : Int) : Except Err SeedSeq :=
+  if seed = 0 then chainSeed osEntropy nChains chainIndex else chainSeed seed nChains chainIndex
+
 /-! ### VI branch -/
 
 inductive VIEvent where
